@@ -112,6 +112,24 @@ def regex_programs(thorough=False, seed=0):
     return out
 
 
+AMBIG_ATOMS = ['/[^x]*/', '/[^y]z/', '/(a|b|[^c])*/', '/[^a]/', '/a*/', '/[ab]+/', '/[bc]/', '/.*/', '/.a/', '/\\w+/', '/[^\\d]+/', '"ab"', '/[a-y]*/', '/a?b?/', 'optional { /[^q]/; }', 'optional { "a"; }']
+
+
+def ambig_programs():
+    """all ordered pairs of open-ended / inverted-class statements: mostly ambiguous joins, exercising every diagnostic path of the join"""
+    out = []
+    k = 0
+    for a in AMBIG_ATOMS:
+        for b in AMBIG_ATOMS:
+            sa = a if a.startswith("optional") else a + ";"
+            sb = b if b.startswith("optional") else b + ";"
+            for ctx in ("{a} {b}", "if n > 1 {{ {a} }} {b}", "{a} if n > 1 {{ {b} }}"):
+                src = DECLS + "parser { " + ctx.format(a=sa, b=sb) + ' ";"; }\n'
+                out.append({"name": f"ambig/{k}", "src": src, "args": ["-feof-support", "-fyield-support"], "path": None})
+                k += 1
+    return out
+
+
 def case_programs():
     """clause sets for case / greedy case (drives the merge contracts)"""
     import itertools
